@@ -10,8 +10,10 @@ import (
 	"go/ast"
 	"go/parser"
 	"go/token"
+	"os"
 	"path/filepath"
 	"reflect"
+	"runtime/debug"
 	"sort"
 	"strconv"
 	"strings"
@@ -455,4 +457,20 @@ func CreateFor(ft model.FeatureTypeType) (fds []api.FunctionDataCmdInterface, ok
 		}
 	}()
 	return spine.CreateFunctionData[api.FunctionDataCmdInterface](ft), true
+}
+
+// RepoRoot is the directory of the spine-go tree this binary was built against
+// (the `replace` target recorded in the build info), needed for the AST-derived parts.
+func RepoRoot() string {
+	if bi, ok := debug.ReadBuildInfo(); ok {
+		for _, d := range bi.Deps {
+			if d.Path == "github.com/enbility/spine-go" && d.Replace != nil && d.Replace.Path != "" {
+				return d.Replace.Path
+			}
+		}
+	}
+	if r := os.Getenv("VERIF_REPO"); r != "" {
+		return r
+	}
+	return "/repo"
 }
